@@ -7,7 +7,7 @@ func init() {
 			"conc: receiver + mutator goroutine per context and a goroutine per publisher, optional prefilled queues; interval semantics (possibly/definitely subscribed intervals from call/return times), order, duplicates, must-deliver up to the final sentinel; plus a few conc-race cases (inproc, queues of 1024, up to 1000 rounds of Recv against spinning Subscribe/Unsubscribe on loaded queues, ending at the first violation). " +
 			"ovf-sub: ReadQLen 1-8 (never 0) on one context, burst longer than the queue: order-preserving duplicate-free subsequence, exact when it fits, neighbour context exact. " +
 			"ovf-pub: WriteQLen 1-8 on PUB: lossless burst of WriteQLen messages exact; blast of 20-50: subsequence per context, contexts of one socket agree. " +
-			"non-trivial = a drain delivered a proper non-empty part of what reached the socket (seq) / a delivery matched only a volatile topic (conc) / a message was lost to overflow (ovf); distinct = hash of (transport, topology, per-operation outcome and per-drain delivered/offered counts)",
+			"pub-resize: WriteQLen changed 2-5 times on a pub/xpub socket with 1-4 vt subscribers connected (idle or mid-stream, late joiners), stream paced one message at a time so that no queue can be full: every subscriber is sent every message once, in order. non-trivial = a drain delivered a proper non-empty part of what reached the socket (seq) / a delivery matched only a volatile topic (conc) / a message was lost to overflow (ovf); distinct = hash of (transport, topology, per-operation outcome and per-drain delivered/offered counts)",
 		Assume: append([]string{
 			"one connection delivers messages in order (the sentinel barrier and the witness context rely on it; the sub receiver offers a message to all contexts of the socket before reading the next)",
 			"queued messages stay below the default queue length 128 in every non-overflow case, so loss there would be a defect, not best-effort behaviour",
